@@ -1,31 +1,35 @@
-import Adlt.Sort.Order
+import Adlt.Sort.Seq
 /-! # C10 — time sorting is a permutation, and ordered under bounded delay
 
-Model: `Srt.runSort table windowSecs minDelay ms` (= `buffer_sort_messages` with a static lifecycle table). -/
+Model: `Srt.runSortSeq table windowSecs minDelay ms` (= `buffer_sort_messages` with a static lifecycle table): the messages
+are numbered as they arrive (`seq`), ties of the calculated time are broken by that number; the messages' own `index` is
+carried and not looked at. -/
 namespace Props
 open Srt
 
 /-- for every input stream, every lifecycle table, every window size and minimum delay:
     the output is a permutation of the input (nothing lost, duplicated or altered) -/
 theorem C10_perm (table : List (Nat × Nat)) (windowSecs minDelay : Nat) (ms : List SMsg) :
-    (runSort table windowSecs minDelay ms).Perm ms := runSort_perm table windowSecs minDelay ms
+    ((runSortSeq table windowSecs minDelay ms).map SMsg.clearSeq).Perm (ms.map SMsg.clearSeq) :=
+  runSortSeq_perm table windowSecs minDelay ms
 
-/-- if reception times never decrease, indices increase, and no message's calculated time (lifecycle start +
-    timestamp capped at reception; reception time for control requests) lies more than `minDelay` before its
-    reception time, the output is ordered by calculated time, ties in original (index) order — for every
-    window size (the proof uses only `threshold ≥ minDelay`) and every table, several ECUs/lifecycles in parallel -/
+/-- if reception times never decrease and no message's calculated time (lifecycle start + timestamp capped at
+    reception; reception time for control requests) lies more than `minDelay` before its reception time, the output is
+    ordered by calculated time, ties in original order (`seq` = arrival number) - for every window size (the proof uses
+    only `threshold ≥ minDelay`), every table, several ECUs/lifecycles in parallel, and whatever the messages' own
+    indices are (equal, decreasing, wrapped) -/
 theorem C10_sorted (table : List (Nat × Nat)) (windowSecs minDelay : Nat) (ms : List SMsg)
-    (h : Spec.orderingInRange table minDelay ms = true) :
-    Spec.sortedByCalc table (runSort table windowSecs minDelay ms) = true :=
-  runSort_sorted table windowSecs minDelay ms h
+    (h : Spec.premise table minDelay ms = true) :
+    Spec.sortedByCalc table (runSortSeq table windowSecs minDelay ms) = true :=
+  runSortSeq_sorted table windowSecs minDelay ms h
 
 /-- the buffering threshold never drops below the configured minimum, whatever the window estimate does -/
 theorem C10_threshold_ge_min (windowSecs minDelay : Nat) (s : SSt) (m : SMsg) (ct : Nat) (h : minDelay ≤ s.T) :
     minDelay ≤ (s.newT windowSecs minDelay m ct).2 := newT_ge windowSecs minDelay s m ct h
 
 /-- non-vacuity: two ECUs in parallel, second message 1.5 s late but within a 2 s bound -/
-example : Spec.orderingInRange [(1, 1000000000), (2, 1000500000)] 2000000
-    [ { index := 0, recv := 1010000000, ecu := 0, lc := 1, tsUs := 9900000, ctrlReq := false },
-      { index := 1, recv := 1010200000, ecu := 1, lc := 2, tsUs := 8200000, ctrlReq := false } ] = true := by decide
+example : Spec.premise [(1, 1000000000), (2, 1000500000)] 2000000
+    [ { index := 7, recv := 1010000000, ecu := 0, lc := 1, tsUs := 9900000, ctrlReq := false },
+      { index := 7, recv := 1010200000, ecu := 1, lc := 2, tsUs := 8200000, ctrlReq := false } ] = true := by decide
 
 end Props
